@@ -70,6 +70,14 @@ func around(v float64) []float64 {
 	return []float64{v, math.Nextafter(v, math.Inf(-1)), math.Nextafter(v, math.Inf(1))}
 }
 
+// absorbed reports a rectangle with a positive size that rounding swallows: fl(X+Width) == X or fl(Y+Height) == Y.
+// Such a rectangle is not Empty but has no representable point (known finding of C07: geom's Contains and Intersects
+// disagree on it).  Stored rectangles are always judged; probe rectangles DERIVED by the harness are dropped when
+// absorbed, so that the judged domain is exactly "histories whose stored rectangles all have a representable point".
+func absorbed(r geom.Rect[float64]) bool {
+	return (r.Width > 0 && r.X+r.Width == r.X) || (r.Height > 0 && r.Y+r.Height == r.Y)
+}
+
 // probes derives the probe points and rectangles from the stored rectangles and their union.
 func probes(stored []*fnode) (pts []geom.Point[float64], rects []geom.Rect[float64]) {
 	var u geom.Rect[float64]
@@ -92,14 +100,20 @@ func probes(stored []*fnode) (pts []geom.Point[float64], rects []geom.Rect[float
 			pts = append(pts, geom.NewPoint(mx, y), geom.NewPoint(r.X, y))
 		}
 		pts = append(pts, geom.NewPoint(r.X, r.Y), geom.NewPoint(math.Nextafter(r.Right(), math.Inf(-1)), math.Nextafter(r.Bottom(), math.Inf(-1))))
-		rects = append(rects, r,
+		rects = append(rects, r)
+		for _, d := range []geom.Rect[float64]{
 			geom.NewRect(r.X, r.Y, math.Nextafter(r.Width, math.Inf(1)), r.Height),
 			geom.NewRect(r.X, r.Y, r.Width, math.Nextafter(r.Height, math.Inf(-1))),
 			geom.NewRect(math.Nextafter(r.Right(), math.Inf(-1)), r.Y, r.Width, r.Height),
 			geom.NewRect(r.Right(), r.Y, 1, r.Height),
 			geom.NewRect(r.X, math.Nextafter(r.Bottom(), math.Inf(-1)), r.Width, 1),
 			geom.NewRect(mx, my, r.Width/4, r.Height/4),
-			geom.NewRect(r.X-1, r.Y-1, r.Width+2, r.Height+2))
+			geom.NewRect(r.X-1, r.Y-1, r.Width+2, r.Height+2),
+		} {
+			if !absorbed(d) {
+				rects = append(rects, d)
+			}
+		}
 	}
 	return pts, rects
 }
@@ -224,7 +238,8 @@ func fsCoord(r *hx.Rng) float64 {
 	case 3:
 		return float64(r.Range(0, 400))/10 + 0.1 + 0.2 // sums that round
 	case 4:
-		return hx.Pick(r, []float64{12.9, 27.700000000000003, 0.1, 0.3, 1.1, 2.675, 30.400000000000002, 1e6 + 0.1, -1e6 - 0.7})
+		return hx.Pick(r, []float64{12.9, 27.700000000000003, 0.1, 0.3, 1.1, 2.675, 30.400000000000002, 1e6 + 0.1, -1e6 - 0.7,
+			1e9 + 0.7, -1e12 - 0.3, 1e15 + 0.5, 1e16, 3e-9, -7e-12})
 	case 5:
 		return float64(r.Range(-50, 50)) * 0.1
 	case 6:
@@ -253,6 +268,11 @@ func fsSize(r *hx.Rng) float64 {
 	}
 }
 
+func ulp(x float64) float64 {
+	x = math.Abs(x)
+	return math.Nextafter(x, math.Inf(1)) - x
+}
+
 func (fsArea) Gen(r *hx.Rng, n int, _ string, emit func(string)) {
 	for i := 0; i < n; i++ {
 		h := r.Fork()
@@ -270,6 +290,21 @@ func (fsArea) Gen(r *hx.Rng, n int, _ string, emit func(string)) {
 			if k > 0 && h.Chance(1, 4) { // abutting the previous one through a rounded sum
 				p := rects[k-1]
 				rects[k].x = p.x + p.w
+			}
+			if h.Chance(1, 6) { // a few ulps wide / high: next to the absorbed region, but with a representable point
+				rects[k].w = float64(h.Range(1, 6)) * ulp(rects[k].x)
+				if h.Bool() {
+					rects[k].hh = float64(h.Range(1, 6)) * ulp(rects[k].y)
+				}
+			}
+			// stay outside the known finding: never a stored rectangle whose positive size is absorbed
+			for absorbed(geom.NewRect(rects[k].x, rects[k].y, rects[k].w, rects[k].hh)) {
+				if rects[k].w > 0 && rects[k].x+rects[k].w == rects[k].x {
+					rects[k].w = 2 * ulp(rects[k].x)
+				}
+				if rects[k].hh > 0 && rects[k].y+rects[k].hh == rects[k].y {
+					rects[k].hh = 2 * ulp(rects[k].y)
+				}
 			}
 		}
 		var in []int
